@@ -316,6 +316,17 @@ class UpdateContract(Contract):
             pre, post = c.pre, c.post
             out = [("C02:matches", pyeq(post.sel("View", i["n"]), bs.plain(iv(c, pre, c.b["data"])))),
                    ("alloc", post.g["Alloc"] >= pre.g["Alloc"])]
+            k0 = post.ghost.get("k1") if c.mode == "prove" else None
+            if k0 is not None and i["kind"] == "dict":
+                from contracts import tree as T
+                d0 = Val.addr(pre.rec(i["obj"]).fields["_data"].term)
+                c0, c1 = pre.sel("Cell", d0), post.sel("Cell", d0)
+                st_ = pre.copy()
+                st_.loc = {"self": i["obj"]}
+                out.append(("C02:identity", z3.Implies(
+                    z3.And(bs.dict_has(dval(c), k0),
+                           T.keeps_identity(c.eng, st_, bs.dict_get(c0, k0), bs.dict_has(c0, k0), bs.dict_get(dval(c), k0))),
+                    z3.And(bs.dict_has(c1, k0), bs.dict_get(c1, k0) == bs.dict_get(c0, k0)))))
             out.extend(tree_consistency(c, i))
             return out
 
@@ -329,8 +340,10 @@ class UpdateContract(Contract):
                  post=post_ok, result=lambda c: Const(None)),
             Case("wrong-kind", "raise", guard=lambda c: z3.And(dval(c) != VNone, z3.Not(kind_ok(c))),
                  exc=("ValueError",)),
-            Case("rejected-entry", "raise", guard=lambda c: z3.And(dval(c) != VNone, kind_ok(c)), modifies=mod,
-                 post=post_raise, exc=EXC_VALIDATION),
+            Case("rejected-entry", "raise",
+                 guard=lambda c: z3.And(dval(c) != VNone, kind_ok(c),
+                                        z3.Not(allowed(c.eng, info(c)["cls"], iv(c, c.pre, c.b["data"])))),
+                 modifies=mod, post=post_raise, exc=EXC_VALIDATION),
         ]
 
 
